@@ -764,7 +764,7 @@ def c10(tier, seed):
         m2 = classes.get("m2", [])
         if quick:
             m1 = rnd.sample(m1, min(len(m1), 25))
-            m2 = rnd.sample(m2, min(len(m2), 60))
+            m2 = rnd.sample(m2, min(len(m2), 100))
         dead = classes.get("mate", []) + classes.get("stale", [])
         extra_m1 = ["6k1/5ppp/8/8/8/8/8/R5K1 w - - 0 1", "r1bqkb1r/pppp1ppp/2n2n2/4p2Q/2B1P3/8/PPPP1PPP/RNB1K1NR w KQkq - 4 4",
                     "6k1/8/8/8/8/8/r4PPP/6K1 b - - 0 1"]
